@@ -97,8 +97,8 @@ func (c *Ctx) ruleSupportedKeys(rule string) {
 	isKey := func(t *ir.Term) bool {
 		s := t.String()
 		switch {
-		case t.Op == "index" && len(t.Args) == 2 && strings.Contains(t.Args[0].String(), "SortedKeys("+input):
-			return true
+		case t.Op == "index" && len(t.Args) == 2 && (strings.Contains(t.Args[0].String(), "SortedKeys("+input) || strings.Contains(t.Args[0].String(), "maps.Keys("+input)):
+			return true // an element of the (sorted) key list of the input
 		case strings.HasPrefix(t.Op, "res") && len(t.Args) == 1 && t.Args[0].Op == "next" && strings.Contains(s, "range("+input):
 			return true
 		}
